@@ -8,7 +8,7 @@
         ASan build, over a value lattice; after errors a probe program is evaluated in the same context."""
 import os, subprocess, json, time, resource
 from vlib import build as B, scm, core
-from gen import c01_vmguards, c01_stack, c01_consts, c01_recursion
+from gen import c01_vmguards, c01_stack, c01_consts, c01_recursion, c01_readbuf
 
 HERE = os.path.dirname(os.path.abspath(__file__))
 
@@ -113,7 +113,7 @@ def run_cases(d, exprs, prelude_extra="", imports="", timeout=900, extra_env=Non
         body = [scm.PRELUDE, imports, FLUSH_CASE, prelude_extra]
         body += ["(verif-fcase %d %s)" % (i, exprs[i]) for i in range(lo, hi)]
         body.append('(write-string "DONE")(newline)')
-        open(path, "w").write("\n".join(body))
+        open(path, "w", encoding="utf-8").write("\n".join(body))
         try:
             r = B.run_chibi(d, [path], timeout=timeout, extra_env=extra_env)
             out, rc, err = r.stdout, r.returncode, r.stderr
@@ -312,8 +312,16 @@ def run(ctx):
                     " ".join("%d:%s" % (l, k) for l, _, _, k, _ in trec["analyze_edges"] if k != "Same")))
     except c01_vmguards.Unsupported as u:
         ctx.broken("gen:C01_Recursion", "translator failed closed: %s (stale Gen/C01_Recursion.v stays in place; the deep-data stream still runs)" % u)
-    ctx.note("stack arithmetic regenerated from sexp_grow_stack / sexp_ensure_stack (request %s when %s); ensure_stack call sites: %s"
-             % (tstack["req"], tstack["cond"], tstack["sites"][1:]))
+    try:
+        trb = c01_readbuf.regen(ctx)
+        ctx.note("reader buffer constants regenerated from sexp.c: sexp_read_string (init %d, test i+%d >= size, largest write %d), "
+                 "sexp_read_symbol (init %d, H %d, largest write %d), digit buffer digits[%d+%d] with snprintf bound %d"
+                 % (trb["read_string"] + trb["read_symbol"] + trb["float_digits"]))
+    except c01_vmguards.Unsupported as u:
+        ctx.broken("gen:C01_ReadBuf", "translator failed closed: %s (stale Gen/C01_ReadBuf.v stays in place; the reader buffer stream still runs)" % u)
+    ctx.note("stack arithmetic regenerated from sexp_grow_stack / sexp_ensure_stack (request %s when %s); ensure_stack call sites: %s; "
+             "sexp_restore_stack: grows when len+%s >= length, asks for len+%s, destination read after the growth"
+             % ((tstack["req"], tstack["cond"], tstack["sites"][1:]) + tuple(tstack.get("restore", ("?", "?")))))
     ctx.note("guard table regenerated from vm.c switch sha %s: %d opcodes translated (%s); skipped (use the accessors, outside the "
              "translated subset, NOT covered by vm_ops_guarded): %s" % (t["sha"], len(t["names"]), " ".join(n[8:] for n in t["names"]),
                                                                        "; ".join("%s: %s" % (k[8:], v) for k, v in sorted(t["skipped"].items()))))
@@ -345,6 +353,7 @@ def run(ctx):
     if exe is None:
         return
     rng = ctx.rng
+    deep_handle = deep_start(ctx, dflt)        # runs in the background (normal build, own processes); collected by deep_stream below
     objs = pool_objects()
     # which entries does the checker reject (targets of the failing-input search)
     safe = ctx.run_model(exe, ["safe %x" % i for i in range(len(t["names"]))])
@@ -460,6 +469,9 @@ def run(ctx):
     bv_accessor_stream(ctx, d)
     ph["bv_accessor_stream"] = round(time.time() - t0, 1)
     illformed_string_stream(ctx, d)
+    t0 = time.time()
+    reader_buffer_stream(ctx, d)
+    ph["reader_buffer_stream"] = round(time.time() - t0, 1)
     # (chibi ast) make-getter / make-setter are a low-level reflection API outside the R7RS-small libraries the property
     # quantifies over: with an out-of-range slot index they build an accessor that reads / writes behind the object (observed on the
     # pinned tree; a stricter check in sexp_make_getter_op broke (chibi weak), whose ephemeron slots are weak slots beyond
@@ -472,14 +484,17 @@ def run(ctx):
     if trec is not None:
         printer_trunc_stream(ctx, exe, dflt, trec, tconst["vals"])
     t0 = time.time()
-    deep_stream(ctx, dflt)
-    ph["deep_stream"] = round(time.time() - t0, 1)
-    t0 = time.time()
     stack_stream(ctx, exe, d, rng, tconst["vals"])
     ph["stack_stream"] = round(time.time() - t0, 1)
     t0 = time.time()
     frame_discipline_stream(ctx, d)
     ph["frame_stream"] = round(time.time() - t0, 1)
+    t0 = time.time()
+    continuation_reentry_stream(ctx, d, tconst["vals"])
+    ph["reentry_stream"] = round(time.time() - t0, 1)
+    t0 = time.time()
+    deep_stream(ctx, dflt, deep_handle)
+    ph["deep_stream_wait"] = round(time.time() - t0, 1)
     if unknown and not ctx.violations:
         ctx.broken("gen:C01_VmGuards", "opcode bodies with statements outside the translated subset: %s" % unknown)
     ctx.trust("gcc -E -fdirectives-only (conditional compilation resolved as in the build) and the text-level translator gen/c01_vmguards.py; "
@@ -544,11 +559,16 @@ def reader_depth_probe(ctx, dflt):
                                  % (depth, depth, dflt, dflt, dflt))
 
 
-def run_harness(emb, d, lines):
+def run_harness(emb, d, lines, max_crashes=None):
     """answers per line; a dead process gives 'CRASH ...' for the line it died on and is restarted after it"""
     res = [None] * len(lines)
     lo = 0
+    ncrash = 0
     while lo < len(lines):
+        if max_crashes is not None and ncrash >= max_crashes:
+            for k in range(lo, len(lines)):
+                res[k] = "SKIPPED"
+            break
         r = subprocess.run([emb], input="\n".join(lines[lo:]) + "\n", capture_output=True, encoding="utf-8", errors="replace",
                            env=B.chibi_env(d, ASAN_ENV), timeout=900, preexec_fn=_big_stack)
         out = r.stdout.split("\n")
@@ -559,7 +579,8 @@ def run_harness(emb, d, lines):
         done = lo + min(len(out), len(lines) - lo)
         if done >= len(lines):
             break
-        res[done] = "CRASH rc=%s %s" % (r.returncode, (r.stderr or "")[-400:].replace("\n", " | "))
+        res[done] = "CRASH rc=%s %s" % (r.returncode, _asan_summary(r.stderr)[:600])
+        ncrash += 1
         lo = done + 1
     return res
 
@@ -1065,9 +1086,14 @@ def deep_cases(thorough):
                     # write-simple under write) is the function the C-level consumers exercise at 40000 through EVERY link.
                     # 40000 levels of 3-slot vectors / dotted / mixed data cost 4-14 s each (collector work): thorough tier
                     plan = [(10010, 2048)]
+                if not thorough and ((cn == "equal" and ll != "car") or (cn == "c-equal" and ll in ("vec3-1", "vec3-2"))):
+                    # round 4 trim (measured 25-35 CPU-s each under load): Scheme-level equal? at 40000 through car only; the C pass of
+                    # equal? at 40000 through slot 0 of 3-slot vectors only (slots 1 / 2 at 10010; all of them in thorough)
+                    plan = [(10010, 2048)]
                 if thorough or cn in ("print:write-simple", "c-equal"):
                     plan.insert(0, (9990, 2048))
-                if level == "C" and (thorough or ll in cheap):
+                if level == "C" and (thorough or (ll in cheap and ll != "carstr")):
+                    # (carstr at 120000 costs 10-40 CPU-s per consumer: thorough; it runs at 40000 in quick)
                     plan.append((120000, 8192))
                 if level == "C" and thorough and ll in cheap:
                     plan.append((1000000, 8192))
@@ -1139,8 +1165,10 @@ def deep_cases(thorough):
                       ("read-unterminated", "(c-read (open-input-string (make-string {n} #\\()))"),
                       ("sread-parens", "(read (open-input-string (string-append (make-string {n} #\\() (make-string {n} #\\)))))"),
                       ("sread-quotes", "(read (open-input-string (string-append (make-string {n} #\\') \"x\")))")):
-            if not thorough and n < 10000 and nm not in ("opcode", "app", "lambda", "let", "quasiquote-template", "read-parens", "if"):
+            if not thorough and n < 10000 and nm not in ("opcode", "app", "quasiquote-template", "read-parens", "if"):
                 continue
+            if not thorough and nm == "and":
+                continue             # 120000 nested `and`s: a value after 45 s of macro expansion (thorough)
             if nm.startswith("sread-") and n > 120000:
                 continue             # the Scheme reader at 10^6 levels: minutes of collector work
             if nm.startswith("read-") and n == 120000:
@@ -1209,7 +1237,9 @@ def deep_replay(dflt, expr, kb):
             % (kb, os.path.join(HERE, "..", "harness", "c01_deep.scm"), expr.replace("'", "'\\''"), dflt, dflt, dflt))
 
 
-def deep_stream(ctx, dflt):
+def deep_start(ctx, dflt):
+    """round 4: the deep-data cases (one process each, normal build, nothing shared with the other streams) run in the background
+    while the sanitizer streams run; deep_finish collects them in case order.  Wall time of the tier = max, not sum."""
     from concurrent.futures import ThreadPoolExecutor
     prelude = open(os.path.join(HERE, "..", "harness", "c01_deep.scm")).read()
     cases = deep_cases(ctx.thorough)
@@ -1220,8 +1250,16 @@ def deep_stream(ctx, dflt):
         expr = e.replace("{n}", str(n))
         rc, out, err, dt = run_deep_case(dflt, prelude, expr, kb, tmo, "%d" % i)
         return nm, expr, n, kb, rc, out, err, dt
-    with ThreadPoolExecutor(4) as ex:
-        res = list(ex.map(one, enumerate(cases)))
+    ex = ThreadPoolExecutor(4 if ctx.thorough else 3)
+    futs = [ex.submit(one, ic) for ic in enumerate(cases)]
+    ex.shutdown(wait=False)
+    return cases, futs, time.time()
+
+
+def deep_stream(ctx, dflt, handle=None):
+    cases, futs, t_start = handle if handle is not None else deep_start(ctx, dflt)
+    res = [f.result() for f in futs]
+    ctx.cov.setdefault("phase_seconds", {})["deep_stream_total"] = round(time.time() - t_start, 1)
     tally = {}
     slowest = (0, None)
     for nm, expr, n, kb, rc, out, err, dt in res:
@@ -1589,6 +1627,300 @@ def illformed_string_stream(ctx, d):
             ctx.violation("utf8:string-set!:truncated-lead:corrupted", input=e, expected=want, observed=r, replay=rep)
     ctx.note("ill-formed string stream: %d cases (truncated lead bytes C3/E2/F0/F4/FB at the end of strings of 1..63 bytes)" % len(cases))
 
+
+
+# ------------------------------------------------------------------------------------ part 6 (round 4): reader buffers
+READBUF_PRE = r"""
+(define (verif-cmp kind got exp)
+  (case kind
+    ((s) (if (and (string? got) (string=? got exp)) 'ok (list 'bad-string (if (string? got) (string-length got) 'not-a-string))))
+    ((y) (if (and (symbol? got) (string=? (symbol->string got) exp)) 'ok (list 'bad-symbol (if (symbol? got) (string-length (symbol->string got)) 'not-a-symbol))))
+    ((p) (if (and (pair? got) (null? (cdr got)) (symbol? (car got)) (string=? (symbol->string (car got)) exp)) 'ok (list 'bad-symbol-in-list)))
+    ((n) (if (and (real? got) (or (= got exp) (< (abs (- got exp)) (* 1e-12 (abs exp))))) 'ok (list 'bad-number got)))
+    ((u) (if (equal? got exp) 'ok (list 'bad-datum)))
+    ((e) 'ok)
+    (else 'bad-kind)))
+(define (verif-rd kind src exp)
+  (let* ((p (open-input-string (string-append src " 7")))
+         (got (verif-c-read p)))
+    (if (eq? kind 'e)
+        'ok
+        (let ((nxt (verif-c-read p)))
+          (if (eqv? nxt 7) (verif-cmp kind got exp) (list 'bad-next-datum))))))
+"""
+READBUF_IMPORTS = "(import (rename (only (chibi) read) (read verif-c-read)))"
+
+
+def _sx(s):
+    """a Scheme expression that builds the string s WITHOUT a long literal (runs of one ASCII letter through make-string, characters
+    beyond ASCII by number): the case file stays ASCII and the builder does not go through the reader routine under test"""
+    parts, lit, i = [], "", 0
+
+    def flush():
+        nonlocal lit
+        if lit:
+            parts.append('"%s"' % lit)
+            lit = ""
+    while i < len(s):
+        c = s[i]
+        j = i
+        while j < len(s) and s[j] == c:
+            j += 1
+        if j - i >= 8 and c.isalnum():
+            flush()
+            parts.append("(make-string %d #\\%s)" % (j - i, c))
+            i = j
+            continue
+        if c == '"' or c == "\\":
+            lit += "\\" + c
+        elif c == "\n":
+            lit += "\\n"
+        elif c == "\t":
+            lit += "\\t"
+        elif 32 <= ord(c) < 127:
+            lit += c
+        else:
+            flush()
+            parts.append("(string (integer->char %d))" % ord(c))
+        i += 1
+    flush()
+    return "(string-append %s)" % " ".join(parts) if len(parts) != 1 else parts[0]
+
+
+def reader_buffer_sizes(d):
+    """the buffer constants of the reader, from THIS sexp.c"""
+    import re
+    src = open(os.path.join(d, "sexp.c"), encoding="utf-8", errors="replace").read()
+    m1 = re.search(r"#define\s+INIT_STRING_BUFFER_SIZE\s+(\d+)", src)
+    m2 = re.search(r"#define\s+SEXP_FLOAT_DIGITS_LEN\s+(\d+)", src)
+    return (int(m1.group(1)) if m1 else None), (int(m2.group(1)) if m2 else None)
+
+
+def reader_buffer_cases(init, flen, thorough):
+    """tokens whose length sits at every offset -6..+2 around every size the reader's buffers go through (the initial on-stack buffer
+    and its doublings), the element that straddles the boundary being each kind of thing the routine can write in one iteration.
+    -> list of (routine, kind, source text, expected (python value), delivery paths)"""
+    W4, W3, W2 = "\U00010400", "€", "λ"
+    sizes = [init << k for k in range(6 if thorough else 3)]
+    offs = range(-6, 3)
+    # (name, source fragment, what it denotes)
+    selems = [("ascii", "Z", "Z"), ("utf8-2", W2, W2), ("utf8-3", W3, W3), ("utf8-4", W4, W4),
+              ("x41", "\\x41;", "A"), ("x3bb", "\\x3bb;", W2), ("x20ac", "\\x20ac;", W3), ("x10400", "\\x10400;", W4),
+              ("esc-n", "\\n", "\n"), ("esc-backslash", "\\\\", "\\"), ("esc-quote", None, None), ("esc-t", "\\t", "\t"),
+              ("line-continuation", "\\\n   ", ""), ("raw-newline", "\n", "\n"), ("close", "", "")]
+    wide = ("x20ac", "x10400", "utf8-4", "close")
+    cases = []
+    for S in sizes:
+        for o in offs:
+            n = S + o
+            for name, frag, den in selems:
+                sufs = [("", "")]
+                if name in wide or thorough:
+                    sufs += [("q", "q"), ("\\x10400;\\x10400;", W4 + W4)]
+                for q, sentinel, routine, kind in (('"', '"', "read_string", "s"), ("|", "|", "read_string_bar", "y")):
+                    if sentinel == "|" and name in ("line-continuation", "raw-newline", "esc-t", "esc-n") and not thorough:
+                        continue
+                    f, dn = (("\\" + q, q) if name == "esc-quote" else (frag, den))
+                    for sf, sd in sufs:
+                        if sentinel == "|" and sf == "q" and not thorough:
+                            continue
+                        src = q + "a" * n + f + sf + q
+                        cases.append((routine, kind, "%s@%d%+d" % (name, S, o), src, "a" * n + dn + sd))
+            # plain symbols / character names / #! names: sexp_read_symbol (1 byte per iteration; NUL written at buf[i] after the loop)
+            for name, frag in (("ascii", "Z"), ("utf8-2", W2), ("utf8-3", W3), ("utf8-4", W4), ("close", "")):
+                tok = "a" * n + frag
+                cases.append(("read_symbol", "y", "%s@%d%+d" % (name, S, o), tok, tok))
+                cases.append(("read_symbol", "p", "%s-in-list@%d%+d" % (name, S, o), "(" + tok + ")", tok))
+            cases.append(("read_symbol", "e", "char-name@%d%+d" % (S, o), "#\\" + "a" * n, None))
+            cases.append(("read_symbol", "e", "hash-bang@%d%+d" % (S, o), "#!" + "a" * n, None))
+            cases.append(("read_symbol", "e", "hash-t@%d%+d" % (S, o), "#t" + "a" * n, None))
+            if S <= 4 * init:
+                cases.append(("read_u8", "u", "u8@%d%+d" % (S, o), "#u8(" + "7 " * n + ")", ("u8", n)))
+    if flen:
+        for base in (flen, flen + 32):
+            for o in offs:
+                n = base + o
+                for name, txt in (("fraction", "0." + "3" * n), ("fraction-exp", "2." + "5" * n + "e3"), ("neg-fraction", "-12." + "7" * (n - 2)),
+                                  ("whole-fraction", "1" + "0" * 300 + "." + "4" * (n - 301)), ("fraction-negexp", "." + "9" * n + "e-7"),
+                                  ("fraction-bigexp", "1." + "2" * n + "e999999"), ("fraction-exp-at-limit", "1." + "2" * n + "e-999999")):
+                    try:
+                        v = float(txt)
+                    except (ValueError, OverflowError):
+                        continue
+                    cases.append(("read_float_tail", "n" if (v == v and abs(v) != float("inf") and v != 0.0) else "e", "%s@%d%+d" % (name, base, o), txt, v))
+    return cases
+
+
+def reader_buffer_stream(ctx, d):
+    """every reader routine with a growable / fixed buffer, on the ASan build, with tokens around every buffer size; both through
+    `read` from a string port (source built at run time) and through the loader (the token stands in the case file)"""
+    init, flen = reader_buffer_sizes(d)
+    if init is None:
+        ctx.broken("reader-buffers:constants", "INIT_STRING_BUFFER_SIZE no longer found in sexp.c: the boundary tokens cannot be regenerated")
+        return
+    cases = reader_buffer_cases(init, flen, ctx.thorough)
+    cases.sort(key=lambda c: (c[3].count("\\x10400;") > 1 or c[3].endswith('q"') or c[3].endswith("q|")))   # the shortest failing token first
+    exprs, meta = [], []
+
+    def expx(kind, exp):
+        if kind == "e":
+            return "#f"
+        if kind == "u":
+            return "(make-bytevector %d 7)" % exp[1]
+        if kind == "n":
+            return repr(exp)
+        return _sx(exp)
+    for routine, kind, label, src, exp in cases:
+        exprs.append("(verif-rd '%s %s %s)" % (kind, _sx(src), expx(kind, exp)))
+        meta.append((routine, kind, label, src, "string-port"))
+        if kind in ("s", "y", "n", "u"):          # the token itself in the program text: read by the loader from a file port
+            lit = ("'" + src) if kind == "y" else src
+            exprs.append("(verif-cmp '%s %s %s)" % (kind, lit, expx(kind, exp)))
+            meta.append((routine, kind, label, src, "source-text"))
+    t0 = time.time()
+    io = run_cases(d, exprs, imports=READBUF_IMPORTS, prelude_extra=READBUF_PRE, timeout=600, extra_env=ASAN_ENV, max_crashes=8, chunk=100000)
+    bad = 0
+    for e, (routine, kind, label, src, path), r in zip(exprs, meta, io):
+        ctx.count(1, key=("readbuf", routine, label, path), nontrivial=True)
+        if r == "SKIPPED":
+            continue
+        prog = "(import (scheme base) (scheme write) (scheme inexact)) %s %s (write %s)" % (READBUF_IMPORTS, READBUF_PRE.replace("\n", " "), e)
+        if path == "source-text":
+            rep = prog                    # scheme text: the token is in it
+        else:
+            rep = ("printf '%%s' '%s' | ASAN_OPTIONS=detect_leaks=0:detect_odr_violation=0 LD_LIBRARY_PATH=%s CHIBI_MODULE_PATH=%s/lib CHIBI_IGNORE_SYSTEM_PATH=1 %s/chibi-scheme /dev/stdin"
+                   % (prog.replace("'", "'\\''"), d, d, d))
+        what = "%s, %d-byte token, element %s, via %s" % (routine, len(src.encode("utf-8")), label, path)
+        if r is None or r.startswith("CRASH") or r == "TIMEOUT":
+            bad += 1
+            ctx.violation("reader:%s:buffer-boundary:crash" % routine, input=what, source_head=src[:12] + "..." + src[-24:],
+                          expected="the datum (buffer sizes %d, %d, ...: the token must fit after each doubling)" % (init, 2 * init),
+                          observed=r, replay=rep)
+        elif r.startswith("ERR") and kind != "e":
+            ctx.violation("reader:%s:buffer-boundary:error" % routine, input=what, source_head=src[:12] + "..." + src[-24:],
+                          expected="the datum", observed=r, replay=rep)
+        elif r != "ok" and kind != "e":
+            ctx.violation("reader:%s:buffer-boundary:wrong-datum" % routine, input=what, source_head=src[:12] + "..." + src[-24:],
+                          expected="the datum the token denotes", observed=r, replay=rep)
+    ctx.note("reader buffer stream: %d cases in %.1f s (INIT_STRING_BUFFER_SIZE=%s and its %d doublings, SEXP_FLOAT_DIGITS_LEN=%s; offsets -6..+2; "
+             "sexp_read_string with both sentinels, sexp_read_symbol incl. character / #! names, the digit buffer of sexp_read_float_tail, #u8)"
+             % (len(exprs), time.time() - t0, init, (6 if ctx.thorough else 3) - 1, flen))
+
+
+# ------------------------------------------------------------------------------------ part 7 (round 4): continuations resumed on a small stack
+REENTRY_PRE = r"""
+(define verif-k #f) (define verif-n 0) (define verif-log '())
+(define (verif-deep n) (if (= n 0) (call-with-current-continuation (lambda (c) (set! verif-k c) 0)) (+ 1 (verif-deep (- n 1)))))
+(define (verif-deep-args n j) (if (= n 0) (apply + (call-with-current-continuation (lambda (c) (set! verif-k c) 0)) (make-list j 0)) (+ 1 (verif-deep-args (- n 1) j))))
+(define (verif-reenter-eval d v)
+  (set! verif-n 0) (set! verif-log '())
+  (let ((r (verif-deep d)))
+    (set! verif-n (+ verif-n 1))
+    (set! verif-log (cons (list r verif-n) verif-log))
+    (if (= verif-n 1) (eval (list 'apply (list 'quote verif-k) (list 'quote (list v))) (environment '(scheme base))))
+    verif-log))
+(define (verif-capture d)
+  (set! verif-n 0)
+  (let ((r (verif-deep d)))
+    (set! verif-n (+ verif-n 1))
+    (list r verif-n (verif-probe2))))
+(define (verif-probe2) (let ((v (make-vector 50 'x))) (length (vector->list v))))
+"""
+
+
+def continuation_reentry_stream(ctx, d, consts):
+    """sexp_restore_stack WITH growth.  Inside one context it is dead code (the capture's own make_call has already made room), but a
+    continuation is resumed on a FRESH, initial-size stack whenever it is invoked from a later top-level form (the loader evaluates
+    every form in a context of its own) or inside `eval` (sexp_eval_op makes a context with its own stack): both R7RS-small.  Captured
+    at every depth around the sizes at which the restore must grow (saved length + 64 against INIT, and the exact-fit request beyond
+    2*INIT), resumed both ways; the value that comes back through the restored frames is fixed by the language."""
+    init, mx = consts["init_stack_size"], consts["max_stack_size"]
+    # words per level of verif-deep are not assumed: every depth from far below INIT/8 words-per-frame to beyond 2*INIT/4
+    if ctx.thorough:
+        ds = list(range(60, (4 * init) // 4 + 40)) + [init, 2 * init + 1, 5 * init, 30 * init]
+    else:
+        ds = list(range(init // 10, init // 4, 3)) + list(range(init // 10 + 1, (2 * init) // 4 + 30, 7)) + [init, 5 * init]
+        ds = sorted(set(ds))
+    # (1) the embedding caller's half: successive sexp_eval_string calls on ONE context ("later programs in the same context"; also
+    # what successive -e options do).  sexp_eval_op gives each call a context with a fresh stack of INIT words, so a continuation
+    # captured by an earlier program and invoked by a later one is restored onto a stack that must grow first.
+    emb = B.cc_embed(d, os.path.join(HERE, "..", "harness", "embed_c01.c"), os.path.join(d, "embed_c01"))
+    hexs = lambda t: "eval " + t.encode().hex()
+    defs = hexs("(begin (define verif-k #f) (define verif-r #f) (define verif-n 0) "
+                "(define (verif-deep n) (if (= n 0) (call-with-current-continuation (lambda (c) (set! verif-k c) 0)) (+ 1 (verif-deep (- n 1))))) "
+                # captured while the LAST operand of a 41-operand call is evaluated (operands are pushed right to left): the resumed frame
+                # pushes 40 more words and makes a call: the restored stack needs the 64-word margin the ensure_stack discipline relies on
+                "(define (verif-deep2 n) (if (= n 0) (apply + (list %s (call-with-current-continuation (lambda (c) (set! verif-k c) 0)))) (+ 1 (verif-deep2 (- n 1))))))"
+                % " ".join(str(i) for i in range(1, 41)))
+    lines, idx = [], []
+    for dd in ds:
+        lines.append(defs)          # per group: a process restarted after a sanitizer abort has lost the definitions
+        idx.append((dd, len(lines)))
+        lines += [hexs("(begin (set! verif-r (verif-deep %d)) (set! verif-n (+ verif-n 1)))" % dd), hexs("verif-r"), hexs("(verif-k 5)"), hexs("verif-r"),
+                  hexs("(begin (set! verif-r (verif-deep2 %d)) (set! verif-n (+ verif-n 1)))" % dd), hexs("verif-r"), hexs("(verif-k 9)"), hexs("verif-r")]
+    hres = run_harness(emb, d, lines, max_crashes=4)
+    nbad = 0
+    for k, (dd, at) in enumerate(idx):
+        got = hres[at:at + 8]
+        ctx.count(2, key=("reentry-embed", dd), nontrivial=True)
+        want = ["V ? P", "V f%d P" % dd, None, "V f%d P" % (dd + 5), "V ? P", "V f%d P" % (dd + 820), None, "V f%d P" % (dd + 829)]
+        okv = all(g is not None and not g.startswith("CRASH") and (w is None or g == w) and g.endswith(" P") for g, w in zip(got, want))
+        if okv or nbad >= 6 or "SKIPPED" in got[:4]:
+            continue
+        nbad += 1
+        crash = any(g is None or g.startswith("CRASH") for g in got)
+        prog = ("-e '(define verif-k #f)' -e '(define (verif-deep n) (if (= n 0) (call-with-current-continuation (lambda (c) (set! verif-k c) 0)) (+ 1 (verif-deep (- n 1)))))' "
+                "-e '(define (verif-deep2 n) (if (= n 0) (apply + (list %s (call-with-current-continuation (lambda (c) (set! verif-k c) 0)))) (+ 1 (verif-deep2 (- n 1)))))' "
+                "-e '(define verif-r (verif-deep %d))' -e '(verif-k 5)' -p verif-r -e '(define verif-r (verif-deep2 %d))' -e '(verif-k 9)' -p verif-r"
+                % (" ".join(str(i) for i in range(1, 41)), dd, dd))
+        ctx.violation("continuation:resume-in-later-program:%s" % ("crash" if crash else "wrong-value"),
+                      input="successive sexp_eval_string calls on one context: (set! verif-r (verif-deep %d)) ; (verif-k 5) ; verif-r ; (set! verif-r (verif-deep2 %d)) ; (verif-k 9) ; verif-r   "
+                            "[each later program runs on a fresh %d-word stack; verif-deep2 captures with 40 operands of a call still to be pushed]" % (dd, dd, init),
+                      expected="verif-r = %d, then %d after the resume; %d, then %d; the probe program right and sexp_context_top restored after every call (P)" % (dd, dd + 5, dd + 820, dd + 829),
+                      observed=" ; ".join(str(g)[:160] for g in got),
+                      replay="ASAN_OPTIONS=detect_leaks=0:detect_odr_violation=0 LD_LIBRARY_PATH=%s CHIBI_MODULE_PATH=%s/lib CHIBI_IGNORE_SYSTEM_PATH=1 %s/chibi-scheme %s   # prints %d and %d" % (d, d, d, prog, dd + 5, dd + 829))
+    # (2) inside one program (Scheme-level eval and load call the compiled thunk in the SAME context: no growth in the restore; kept as
+    # the check of the saved / restored frames' content)
+    ds = ds[::4] if not ctx.thorough else ds
+    exprs, exps, kinds = [], [], []
+    for dd in ds:
+        exprs.append("(verif-reenter-eval %d 7)" % dd)
+        exps.append("((%d 2) (%d 1))" % (dd + 7, dd))
+        kinds.append("eval")
+        # capture in this form ...
+        exprs.append("(verif-capture %d)" % dd)
+        exps.append("(%d 1 50)" % dd)
+        kinds.append("toplevel-capture")
+        # ... resume from the next top-level form: a fresh context with a stack of initial size.  The case number of THIS form is already
+        # written; the rest of the line is written by the resumed continuation of the previous form (its second pass)
+        exprs.append("(verif-k 5)")
+        exps.append("(%d 2 50)" % (dd + 5))
+        kinds.append("toplevel-resume")
+    io = run_cases(d, exprs, prelude_extra=REENTRY_PRE, timeout=600, extra_env=ASAN_ENV, max_crashes=4, chunk=100000)
+    pre1 = REENTRY_PRE.replace("\n", " ")
+    for i, (e, x, kd, r) in enumerate(zip(exprs, exps, kinds, io)):
+        ctx.count(1, key=("reentry", e, kd), nontrivial=True)
+        if r == "SKIPPED":
+            continue
+        if kd == "toplevel-resume":
+            inp = "%s ; then, as the next top-level form: %s" % (exprs[i - 1], e)
+            rep = ("(import (scheme base) (scheme write) (scheme eval)) %s (define (verif-capture d) (set! verif-n 0) (let ((r (verif-deep d))) (set! verif-n (+ verif-n 1)) "
+                   "(write (list r verif-n (verif-probe2))) (newline))) %s (verif-k 5)" % (pre1, exprs[i - 1]))
+            sig = "continuation:resume-on-fresh-stack:toplevel"
+        elif kd == "toplevel-capture":
+            inp, rep, sig = e, replay_cmd(d, "(begin %s %s)" % (pre1, e)), "continuation:capture"
+        else:
+            inp = e
+            rep = replay_cmd(d, "(begin %s %s)" % (pre1, e)).replace("(import (scheme base) (scheme write) (chibi))", "(import (scheme base) (scheme write) (scheme eval) (chibi))")
+            sig = "continuation:resume-on-fresh-stack:eval"
+        if r is None or r.startswith("CRASH") or r == "TIMEOUT":
+            ctx.violation(sig + ":crash", input=inp, expected=x, observed=r, replay=rep)
+        elif r != x:
+            ctx.violation(sig + ":wrong-value", input=inp, expected=x + "  (frames saved at depth %s, restored on a fresh stack of %d words that has to grow for them)" % (exprs[i - (kd == "toplevel-resume")].split()[1].strip(")"), init),
+                          observed=r, replay=rep)
+    ctx.note("continuation re-entry stream: %d depths (every depth around the sizes at which sexp_restore_stack must grow a fresh %d-word stack) through successive "
+             "sexp_eval_string calls on one context, plain and with 40 pending operands; %d depths resumed inside one program (Scheme-level eval, next top-level form)"
+             % (len(idx), init, len(ds)))
 
 # ------------------------------------------------------------------------------------ part 5d: record slot accessors
 def slot_accessor_stream(ctx, d):
